@@ -205,12 +205,16 @@ CursorOK(st) == st.pos >= 1 /\ st.pos <= Len(st.txt) + 1
 
 ----------------------------------------------------------------------------
 (* BasicSolver::ParseOptions: the sources in their order.                     *)
-(* env = [mp, exe, nam : [set, txt], exeKnown, argv : Seq(text)]              *)
+(* env = [mp, exe, nam : [set, txt], exeKnown, argv : Seq(text), argvFile : Seq(BOOLEAN)] *)
+(* (an option file named inside an environment text is an inclusion at that   *)
+(* place: the trace carries the text with the file's content spliced in)      *)
 Sources(env) ==
   (IF env.mp.set THEN <<[txt |-> env.mp.txt, cmd |-> FALSE]>> ELSE <<>>) \o
   (IF env.exeKnown /\ env.exe.set THEN <<[txt |-> env.exe.txt, cmd |-> FALSE]>>
    ELSE IF env.nam.set THEN <<[txt |-> env.nam.txt, cmd |-> FALSE]>> ELSE <<>>) \o
-  [i \in 1..Len(env.argv) |-> [txt |-> env.argv[i], cmd |-> TRUE]]
+  \* an argument may be "tech:optionfile=<path>": env.argvFile[i] says so and env.argv[i] is then the CONTENT of the
+  \* file, whose lines are options text like that of the environment variables (not "already split by the shell")
+  [i \in 1..Len(env.argv) |-> [txt |-> env.argv[i], cmd |-> ~env.argvFile[i]]]
 
 RECURSIVE RunSources(_, _, _, _, _, _)
 \* result of the previous source r (a halted st), remaining sources from index i
